@@ -310,7 +310,7 @@ theorem inv_after {sp : Spec} {b : Bool} {st : State} (h : st = stAfter sp b st 
     st.hasKw = sp.kw ∧ st.fmt = some sp.pfmt := by
   refine ⟨?_, ?_, ?_, ?_⟩ <;> (rw [h]; simp [stAfter])
 
-theorem predictCore_single (fx : Fixes) (sp : Spec) (pol : Policy) (st : State) (c : PyVal) (as : List PyVal)
+theorem format_roundtrip_single' (fx : Fixes) (sp : Spec) (pol : Policy) (st : State) (c : PyVal) (as : List PyVal)
     (hinv : Inv sp false st)
     (hfirst : st.layout = Option.none → firstRowOK fx sp (pol c as) as = true) :
     predictCore fx (scripted sp pol) st (.single c as) =
@@ -1848,6 +1848,550 @@ theorem predFormat_hintRow (fx : Fixes) (sp : Spec) (a0 : Answer) (as0 : List Py
     have hlen : a0.pmf.length = as0.length := by simpa using hf
     simpa [Spec.pfmt, Fmt.kind, Fmt.hinted, Fmt.hint, hintVal, mkPmf] using
       predFormat_dPM_gen fx .tmp (mkSeq ptup a0.pmf) a0.pmf as0 (items_mkSeq _ _) hne hlen
+
+
+
+
+theorem keysSame_hint_kw (h : String) (vs : List PyVal) (ks : List String) (vs' : List PyVal) (r r' : Ref)
+    (hn : ks.contains h = false) : keysSame (.dict r [h] vs) (.dict r' ks vs') = false := by
+  simp only [keysSame, List.all_cons, hn, Bool.false_and]
+
+theorem keysEq_dict_dict (r r' : Ref) (ks ks' : List String) (vs vs' : List PyVal) :
+    keysEq (.dict r ks vs) (.dict r' ks' vs') = .ok (keysSame (.dict r ks vs) (.dict r' ks' vs')) := rfl
+
+theorem hinted_col_facts (fx : Fixes) (sp : Spec) (a0 : Answer) (as0 : List PyVal) (R' : Rows) (cs : List PyVal) (rows : List (List PyVal))
+    (probe : Except Err PyVal)
+    (hh : sp.fmt.hinted = true) (hn : rows.length = R'.length + 1)
+    (hc : colFirstOK sp a0 (R'.length + 1) = true) (hf : firstRowOK fx sp a0 as0 = true) :
+    validOut fx (renderCol sp ((a0, as0) :: R')) (R'.length + 1) = true ∧
+    batchOrder fx probe (renderCol sp ((a0, as0) :: R')) (.batch cs rows) 1 = .ok .col ∧
+    hasKwargs (renderCol sp ((a0, as0) :: R')) .col = sp.kw ∧
+    firstRow (renderCol sp ((a0, as0) :: R')) .col sp.kw = .ok (.dict .tmp [sp.fmt.hint] [hintVal sp a0 as0]) := by
+  rw [renderCol_hinted sp _ (by simp) hh]
+  simp only [colFirstOK, hh, ↓reduceIte, Bool.or_eq_true, Bool.not_eq_true'] at hc
+  obtain ⟨kvs, hkv⟩ := kwCols_keys a0 as0 R'
+  have hH : ∀ vs, isHint (.dict (.lrn 0) [sp.fmt.hint] vs) = true := fun vs => hint_isHint sp.fmt hh (.lrn 0) vs
+  cases hk : sp.kw
+  · simp only [Bool.false_eq_true, ↓reduceIte, hintDict]
+    refine ⟨?_, ?_, ?_, ?_⟩
+    · simp [validOut, lenOr0, PyVal.len]
+    · simp [batchOrder, batchOrderPre, allDicts, iter, PyVal.isDict, bind, Except.bind, pure, Except.pure]
+    · simp [hasKwargs, getLast]
+    · simp [firstRow, firstOfEach, getIdx, bind, Except.bind, pure, Except.pure]
+  · have hnk : a0.kwKeys.contains sp.fmt.hint = false := by
+      rcases hc with h | h
+      · rw [hk] at h; cases h
+      · exact h
+    have hks : ∀ vs, keysSame (.dict (.lrn 0) [sp.fmt.hint] vs) (.dict (.lrn 0) a0.kwKeys kvs) = false :=
+      fun vs => keysSame_hint_kw sp.fmt.hint vs a0.kwKeys kvs (.lrn 0) (.lrn 0) hnk
+    simp only [↓reduceIte, hintDict, hkv]
+    refine ⟨?_, ?_, ?_, ?_⟩
+    · cases sp.tup <;>
+        simp [mkSeq, validOut, PyVal.isDict, keysEq_dict_dict, hks, hH, lenOr0, PyVal.len]
+    · cases sp.tup <;>
+        simp [mkSeq, batchOrder, batchOrderPre, allDicts, iter, PyVal.isDict, getIdx, getLast, keysEq_dict_dict, hks, hH, PyVal.len,
+          bind, Except.bind, pure, Except.pure]
+    · cases sp.tup <;> simp [mkSeq, hasKwargs, getLast, PyVal.isDict]
+    · cases sp.tup <;> simp [mkSeq, firstRow, firstOfEach, getIdx, PyVal.isDict, bind, Except.bind, pure, Except.pure]
+
+
+
+
+theorem predictCore_col (fx : Fixes) (sp : Spec) (pol : Policy) (st : State) (cs : List PyVal) (rows : List (List PyVal))
+    (hlay : sp.layout = .col) (hinv : Inv sp true st)
+    (hlen : cs.length = rows.length) (hne : rows ≠ [])
+    (hok : colParseOK fx sp = true) (ht : pmfTable sp (zipWithAns pol cs rows) = true)
+    (hfirst : st.layout = Option.none → ∀ r R', zipWithAns pol cs rows = r :: R' →
+        firstRowOK fx sp r.1 r.2 = true ∧ colFirstOK sp r.1 (R'.length + 1) = true) :
+    Delivers (predictCore fx (scripted sp pol) st (.batch cs rows)) (wantBatch sp st.rng (zipWithAns pol cs rows))
+      (stAfter sp true st) := by
+  obtain ⟨c0, cs', rfl⟩ : ∃ c0 cs', cs = c0 :: cs' := by
+    cases cs with
+    | nil => cases rows <;> simp_all
+    | cons c cs => exact ⟨c, cs, rfl⟩
+  obtain ⟨as0, rows', rfl⟩ : ∃ a r, rows = a :: r := by
+    cases rows with
+    | nil => exact absurd rfl hne
+    | cons a r => exact ⟨a, r, rfl⟩
+  have hsnd := zipWithAns_snd pol (c0 :: cs') (as0 :: rows') hlen
+  have hRlen := zipWithAns_length pol (c0 :: cs') (as0 :: rows') hlen
+  have hlen' : cs'.length = rows'.length := by simpa using hlen
+  have hR'len := zipWithAns_length pol cs' rows' hlen'
+  set R := zipWithAns pol (c0 :: cs') (as0 :: rows') with hR
+  have hRcons : R = (pol c0 as0, as0) :: zipWithAns pol cs' rows' := rfl
+  have hRne : R ≠ [] := by rw [hRcons]; simp
+  have hLbatch : scripted sp pol (.batch (c0 :: cs') (as0 :: rows')) = .ok (renderCol sp R) := by
+    simp [scripted, hlay, hR]
+  have hparse : ∀ st2 : State, st2.hasKw = sp.kw → st2.rng = st.rng →
+      DeliversN (parseCol fx st2 sp.pfmt (as0 :: rows') (renderCol sp R)) (wantBatch sp st.rng R) := by
+    intro st2 h1 h2
+    have := parseCol_cols fx sp st2 h1 R hRne hok ht
+    rw [hsnd, h2] at this
+    exact this
+  have hstA : ∀ s, stAfter sp true st s = { st with rng := s, method := some 1, layout := some BLayout.col, hasKw := sp.kw, fmt := some sp.pfmt } := by
+    intro s; simp [stAfter, hlay]
+  rcases hinv with ⟨hm, hl⟩ | hst
+  · obtain ⟨hf, hc⟩ := hfirst hl _ _ hRcons
+    simp only at hf hc
+    rw [hR'len] at hc
+    -- validity and detection
+    have hvd : validOut fx (renderCol sp R) (c0 :: cs').length = true ∧
+        detect fx (scripted sp pol) { st with method := some 1 } (.batch (c0 :: cs') (as0 :: rows')) (renderCol sp R) 1 =
+          .ok { st with method := some 1, layout := some .col, hasKw := sp.kw, fmt := some sp.pfmt } := by
+      cases hh : sp.fmt.hinted
+      · -- un-hinted
+        obtain ⟨⟨col0, rest, hcols, hc0⟩, _, _, _, _⟩ := colsOf_shape sp (pol c0 as0) as0 (zipWithAns pol cs' rows') hh (by rw [← hRcons]; exact ht)
+        refine ⟨?_, ?_⟩
+        · have hrend : renderCol sp R = mkSeq sp.tup (.list (.lrn 0) col0 :: (rest ++ (if sp.kw then [kwCols R] else []))) := by
+            rw [renderCol_eq sp R hRne, hRcons, hcols]
+            cases hk : sp.kw <;> simp [hh]
+          rw [hrend]
+          exact validOut_cols fx sp.tup col0 _ _ (by simp [hc0, hR'len, hlen'])
+        · have := detect_cols fx sp pol { st with method := some 1 } c0 cs' as0 rows' (zipWithAns pol cs' rows') hlay hh hl hR'len rfl hf
+            (by exact hc) (by rw [← hRcons]; exact ht)
+          rw [← hRcons] at this
+          exact this
+      · obtain ⟨h1, h2, h3, h4⟩ := hinted_col_facts fx sp (pol c0 as0) as0 (zipWithAns pol cs' rows') (c0 :: cs') (as0 :: rows')
+          (do let a1 ← firstOf (.batch (c0 :: cs') (as0 :: rows')); let r ← safeCall fx (scripted sp pol) (some 1) a1; pure r.1)
+          hh (by simp [hR'len]) (by rw [hR'len]; exact hc) hf
+        rw [← hRcons] at h1 h2 h3 h4
+        refine ⟨by simpa [hR'len, hlen'] using h1, ?_⟩
+        have hpf := predFormat_hintRow fx sp (pol c0 as0) as0 hh hf
+        unfold detect
+        simp only [bind, Except.bind, pure, Except.pure] at h2
+        simp only [hl, bind, Except.bind, pure, Except.pure, h2, h3, h4, hpf]
+    obtain ⟨hvalid, hdet⟩ := hvd
+    have hp := hparse { st with method := some 1, layout := some .col, hasKw := sp.kw, fmt := some sp.pfmt } rfl rfl
+    have := deliversN_to_delivers _ _ (stAfter sp true st) hp
+    simp only [predictCore, safeCall, hm, hLbatch, hvalid, ↓reduceIte, bind, Except.bind, pure, Except.pure, hdet, parse]
+    generalize parseCol fx _ sp.pfmt (as0 :: rows') (renderCol sp R) = x at this ⊢
+    cases x with
+    | error e => simpa [liftSt] using this
+    | ok v => simpa [liftSt, hstA] using this
+  · obtain ⟨hm, hl, hk, hf⟩ := inv_after hst
+    rw [hlay] at hm hl
+    replace hm : st.method = some 1 := by rw [hm]; rfl
+    replace hl : st.layout = some BLayout.col := by rw [hl]; rfl
+    clear hst
+    have hp := hparse st hk rfl
+    have := deliversN_to_delivers _ _ (stAfter sp true st) hp
+    simp only [predictCore, safeCall, hm, hLbatch, bind, Except.bind, pure, Except.pure, detect, hl, parse, hf]
+    have hsteq : ({ st with method := some 1, layout := some BLayout.col, fmt := some sp.pfmt } : State) = st := by
+      cases st; simp_all
+    rw [hsteq]
+    have hst' : ∀ s, stAfter sp true st s = { st with rng := s, method := some 1, layout := some BLayout.col, fmt := some sp.pfmt } := by
+      intro s; simp [stAfter, hlay, hk]
+    generalize parseCol fx _ sp.pfmt (as0 :: rows') (renderCol sp R) = x at this ⊢
+    cases x with
+    | error e => simpa [liftSt] using this
+    | ok v => simpa [liftSt, hst'] using this
+
+
+
+
+/-- every documented format, batched: what the evaluator receives is what the learner said -/
+theorem format_roundtrip_batch' (fx : Fixes) (sp : Spec) (pol : Policy) (st : State) (cs : List PyVal) (rows : List (List PyVal))
+    (hinv : Inv sp true st) (hlen : cs.length = rows.length) (hne : rows ≠ [])
+    (hU : Unambiguous fx sp st (rowsOf pol cs rows) = true) :
+    Delivers (predictCore fx (scripted sp pol) st (.batch cs rows)) (wantBatch sp st.rng (rowsOf pol cs rows))
+      (stAfter sp true st) := by
+  simp only [Unambiguous, Bool.and_eq_true, Bool.or_eq_true, rowsOf] at hU ⊢
+  obtain ⟨hcall, hfirst⟩ := hU
+  have hfirst' : st.layout = Option.none → firstCallOK fx sp (zipWithAns pol cs rows) = true := by
+    intro h; rcases hfirst with h' | h'
+    · rw [h] at h'; simp at h'
+    · exact h'
+  cases hlay : sp.layout
+  case col =>
+    simp only [callOK, hlay, Bool.and_eq_true] at hcall
+    refine predictCore_col fx sp pol st cs rows hlay hinv hlen hne hcall.1 hcall.2 ?_
+    intro hl r R' hR
+    have := hfirst' hl
+    rw [hR] at this
+    simpa [firstCallOK, hlay] using this
+  case row =>
+    simp only [callOK, hlay, Bool.or_eq_true, Bool.not_eq_true'] at hcall
+    refine predictCore_row fx sp pol st cs rows hlay hinv hlen hne ?_ ?_
+    · intro hk; rcases hcall with h | h
+      · rw [hk] at h; cases h
+      · exact h
+    · intro hl r R' hR
+      have := hfirst' hl
+      rw [hR] at this
+      simpa [firstCallOK, hlay] using this
+  case single =>
+    simp only [callOK, hlay, Bool.or_eq_true, Bool.not_eq_true'] at hcall
+    refine predictCore_perrow fx sp pol st cs rows hlay hinv hlen hne ?_ ?_
+    · intro hk; rcases hcall with h | h
+      · rw [hk] at h; cases h
+      · exact h
+    · intro hl r R' hR
+      have := hfirst' hl
+      rw [hR] at this
+      simpa [firstCallOK, hlay] using this
+
+
+
+
+/-! concrete witnesses: the recorded defects of the pinned code and their repair -/
+
+def errOf {α} : Except Err α → Option Err | .error e => some e | .ok _ => Option.none
+
+/-- (number of actions, number of probabilities) a batched result holds -/
+def lensOf (x : Except Err (Result × State)) : Option (Nat × Nat) :=
+  match x with
+  | .ok (r, _) => (match r.view with | some v => some (v.A.length, v.P.length) | Option.none => Option.none)
+  | .error _ => Option.none
+
+/-- numeric values of the returned actions and probabilities -/
+def numsOf (x : Except Err (Result × State)) : Option (List (Option Rat) × List (Option Rat)) :=
+  match x with
+  | .ok (r, _) => (match r.view with | some v => some (v.A.map PyVal.num, v.P.map PyVal.num) | Option.none => Option.none)
+  | .error _ => Option.none
+
+def exStr (n : Nat) (s : String) : PyVal := .str (.ext n) s
+def exD2 (j : Int) (n : Nat) : PyVal := .dict (.ext n) ["x", "y"] [.int j, .int 7]
+def exSparse (k : String) (n : Nat) : PyVal := .dict (.ext n) [k] [.int 1]
+
+/-- the learner of the witnesses: row i (context i) names action `pick i` / gives the one-hot PMF at `hot i` -/
+def exPol (pick hot : Nat → Nat) (K : Nat) : Policy := fun c _ =>
+  match c with
+  | .int i => ⟨pick i.toNat, .flt (.lrn 1) (1/4), (List.range K).map (fun j => PyVal.int (if j = hot i.toNat then 1 else 0)), ["k"], [.int (5 + i)]⟩
+  | _ => ⟨0, .none, [], [], []⟩
+
+def ctxs (n : Nat) : List PyVal := (List.range n).map (fun i => PyVal.int i)
+
+-- C15-F1a  un-hinted bare sparse action with two features
+theorem pinned_short_dict_counterexample' :
+    errOf (predict Fixes.none (scripted { fmt := .A, kw := false, layout := .single } (exPol (fun _ => 0) (fun _ => 0) 2)) (initState 1)
+      (.single (.int 0) [exD2 2 1, exD2 3 2])) = some .key := by decide
+-- C15-F1b  un-hinted bare one-item tuple
+theorem pinned_short_tuple_counterexample' :
+    errOf (predict Fixes.none (scripted { fmt := .A, kw := false, layout := .single } (exPol (fun _ => 0) (fun _ => 0) 2)) (initState 1)
+      (.single (.int 0) [.tuple (.ext 1) [.int 5], .tuple (.ext 2) [.int 6]])) = some .coba := by decide
+-- C15-F2  batched 0/1 actions, un-hinted PMF read as (action, prob)
+theorem pinned_batched01_counterexample' :
+    numsOf (predict Fixes.none (scripted { fmt := .PM, kw := false, layout := .row } (exPol (fun _ => 0) (fun i => 1 - i) 2)) (initState 1)
+      (.batch (ctxs 2) [[.int 0, .int 1], [.int 0, .int 1]])) = some ([some 0, some 1], [some 1, some 0]) := by decide
+theorem fixed_batched01' :
+    numsOf (predict Fixes.all (scripted { fmt := .PM, kw := false, layout := .row } (exPol (fun _ => 0) (fun i => 1 - i) 2)) (initState 1)
+      (.batch (ctxs 2) [[.int 0, .int 1], [.int 0, .int 1]])) = some ([some 1, some 0], [some 1, some 1]) := by decide +kernel
+-- C15-F3a  column-major bare actions with kwargs: the column comes back wrapped
+theorem pinned_colA_counterexample' :
+    lensOf (predict Fixes.none (scripted { fmt := .A, kw := true, layout := .col } (exPol (fun i => i) (fun _ => 0) 2)) (initState 1)
+      (.batch (ctxs 2) [[exStr 1 "aa", exStr 2 "bb"], [exStr 1 "aa", exStr 2 "bb"]])) = some (1, 1) := by decide
+theorem fixed_colA' :
+    lensOf (predict Fixes.all (scripted { fmt := .A, kw := true, layout := .col } (exPol (fun i => i) (fun _ => 0) 2)) (initState 1)
+      (.batch (ctxs 2) [[exStr 1 "aa", exStr 2 "bb"], [exStr 1 "aa", exStr 2 "bb"]])) = some (2, 2) := by decide
+-- C15-F3c  column-major PMFs, non-square batch
+theorem pinned_colPM_counterexample' :
+    errOf (predict Fixes.none (scripted { fmt := .PM, kw := false, layout := .col } (exPol (fun _ => 0) (fun i => 2 * i) 3)) (initState 1)
+      (.batch (ctxs 2) [[exStr 1 "aa", exStr 2 "bb", exStr 3 "cc"], [exStr 1 "aa", exStr 2 "bb", exStr 3 "cc"]])) = some .value := by decide +kernel
+-- C15-F3e  column-major hinted answer with kwargs
+theorem pinned_colHintKw_counterexample' :
+    errOf (predict Fixes.none (scripted { fmt := .dA, kw := true, layout := .col } (exPol (fun i => i) (fun _ => 0) 2)) (initState 1)
+      (.batch (ctxs 2) [[exStr 1 "aa", exStr 2 "bb"], [exStr 1 "aa", exStr 2 "bb"]])) = some .attr := by decide
+-- C15-F4  row-major bare sparse actions with different feature names
+theorem pinned_sparseRows_counterexample' :
+    errOf (predict Fixes.none (scripted { fmt := .A, kw := false, layout := .row } (exPol (fun i => i) (fun _ => 0) 2)) (initState 1)
+      (.batch (ctxs 2) [[exSparse "f0" 1, exSparse "f1" 2], [exSparse "f0" 1, exSparse "f1" 2]])) = some .coba := by decide
+theorem fixed_sparseRows' :
+    lensOf (predict Fixes.all (scripted { fmt := .A, kw := false, layout := .row } (exPol (fun i => i) (fun _ => 0) 2)) (initState 1)
+      (.batch (ctxs 2) [[exSparse "f0" 1, exSparse "f1" 2], [exSparse "f0" 1, exSparse "f1" 2]])) = some (2, 2) := by decide
+
+
+
+theorem toRats_of_valid (pmf : List PyVal) :
+    (∀ x ∈ pmf, ∃ q, x.num = some q) → ∃ qs, toRats pmf = some qs ∧ sumNums pmf = some qs.sum ∧ qs.length = pmf.length ∧
+      ∀ (i : Nat) (x : PyVal), pmf[i]? = some x → ∃ q, x.num = some q ∧ qs[i]? = some q := by
+  induction pmf with
+  | nil => intro _; exact ⟨[], rfl, rfl, rfl, by intro i x h; simp at h⟩
+  | cons x xs ih =>
+    intro h
+    obtain ⟨q, hq⟩ := h x (by simp)
+    obtain ⟨qs, h1, h2, h3, h4⟩ := ih (fun y hy => h y (by simp [hy]))
+    refine ⟨q :: qs, by simp [toRats, hq, h1], by simp [sumNums, hq, h2], by simp [h3], ?_⟩
+    intro i y hy
+    cases i with
+    | zero => simp at hy; subst hy; exact ⟨q, hq, rfl⟩
+    | succ i => simp at hy; simpa using h4 i y hy
+
+/-- a PMF is sampled by `CobaRandom.choicew`: one uniform is consumed, the action drawn is one of the offered actions
+and the probability reported is exactly the PMF's entry for it, which is positive -/
+theorem pmf_prob_reported' (s : Nat) (as pmf : List PyVal) (v : PyVal) (hv : v.items = some pmf)
+    (hp : validPmf pmf as = true) :
+    ∃ (i : Nat) (a p : PyVal) (q : Rat), choicew s as v = .ok (Coba.C05.next s, a, p) ∧ as[i]? = some a ∧ pmf[i]? = some p ∧ p.num = some q ∧ 0 < q := by
+  simp only [validPmf, Bool.and_eq_true, beq_iff_eq] at hp
+  obtain ⟨⟨hlen, hsum⟩, hnn⟩ := hp
+  have hnum : ∀ x ∈ pmf, ∃ q, x.num = some q := by
+    intro x hx
+    have := List.all_eq_true.mp hnn x hx
+    cases hq : x.num with
+    | none => simp [hq] at this
+    | some q => exact ⟨q, rfl⟩
+  obtain ⟨qs, h1, h2, h3, h4⟩ := toRats_of_valid pmf hnum
+  have hs1 : qs.sum = 1 := by
+    rw [h2] at hsum; simpa using hsum
+  have hnn' : ∀ w ∈ qs, 0 ≤ w := by
+    intro w hw
+    obtain ⟨i, hi, hiw⟩ := List.getElem_of_mem hw
+    have hi' : i < pmf.length := by rw [← h3]; exact hi
+    obtain ⟨q, hq1, hq2⟩ := h4 i pmf[i] (List.getElem?_eq_getElem hi')
+    have : q = w := by
+      rw [List.getElem?_eq_getElem hi] at hq2; simpa [hiw] using hq2.symm
+    subst this
+    have := List.all_eq_true.mp hnn pmf[i] (List.getElem_mem hi')
+    simpa [hq1] using this
+  have hpos : 0 < Coba.C05.sum qs := by rw [Coba.C05.sum_eq, hs1]; norm_num
+  obtain ⟨i, w, hc, hw, hwpos⟩ := Coba.C05.choicew_weight' s as.length qs (by rw [h3, hlen]) hnn' hpos
+  have hi : i < qs.length := by
+    by_contra hcon
+    have : qs[i]? = Option.none := by simp at hcon; simp [hcon]
+    rw [this] at hw; cases hw
+  have hip : i < pmf.length := by rw [← h3]; exact hi
+  have hia : i < as.length := by rw [← hlen]; exact hip
+  obtain ⟨q, hq1, hq2⟩ := h4 i pmf[i] (List.getElem?_eq_getElem hip)
+  have hqw : q = w := by rw [hw] at hq2; simpa using hq2.symm
+  refine ⟨i, as[i], pmf[i], q, ?_, List.getElem?_eq_getElem hia, List.getElem?_eq_getElem hip, hq1, by rw [hqw]; exact hwpos⟩
+  have hvn : v ≠ .none := by intro h; rw [h] at hv; simp [PyVal.items] at hv
+  have hne : ¬ (pmf ≠ [] ∧ pmf.length ≠ as.length) := by intro h; exact h.2 hlen
+  cases v <;> simp [PyVal.items] at hv <;> subst hv <;>
+    simp [choicew, PyVal.items, hne, h1, hc, List.getElem?_eq_getElem hia, List.getElem?_eq_getElem hip]
+
+
+
+
+/-- which un-hinted two-item answers are read as (action, prob): exactly those whose first item IS one of the offered
+objects - whatever the learner meant by them (a two-action PMF, a two-feature action, a real (action, prob)) -/
+theorem ambiguity_two_items' (fx : Fixes) (v x y : PyVal) (as : List PyVal) (hv : v.items = some [x, y]) (hne : as ≠ []) :
+    predFormat fx v (some as) = .ok ⟨.AP, false⟩ ↔ as.any (fun a => pyIs x a) = true := by
+  constructor
+  · intro h
+    by_contra hcon
+    have hx : as.any (fun a => pyIs x a) = false := by simpa using hcon
+    have hx' : ¬ ∃ a ∈ as, pyIs x a = true := by simpa using hx
+    have hemp : as.isEmpty = false := by cases as <;> simp_all
+    obtain ⟨f1, f2, f3, f4, f5⟩ := seq_facts hv
+    unfold predFormat at h
+    simp only [f1, f2, f3, f4, f5, Option.getD_some, hemp, List.length_cons, List.length_nil] at h
+    cases hs : fx.short <;> simp [hs, hx, hx', bind, Except.bind, pure, Except.pure] at h
+    all_goals (split at h <;> try (split at h) <;> try (split at h))
+    all_goals (revert h; decide)
+  · exact predFormat_AP fx v x y as hv
+
+
+
+
+/-! ### the float copies -/
+
+theorem makeSafe_spec (k : Nat) (a : PyVal) :
+    (makeSafe k a = a ∧ a ≠ .int 0 ∧ a ≠ .int 1 ∧ ∀ b, a ≠ .bool b) ∨
+    (∃ q, makeSafe k a = .flt (.safe k) q ∧ a.num = some q ∧ pyEq (makeSafe k a) a = true) := by
+  cases a with
+  | bool b => right; cases b <;> exact ⟨_, rfl, rfl, by simp [makeSafe, pyEq, PyVal.num]⟩
+  | int i =>
+    by_cases h : i = 0 ∨ i = 1
+    · right
+      refine ⟨(i : Rat), by simp [makeSafe, h], rfl, ?_⟩
+      simp [makeSafe, h, pyEq, PyVal.num]
+    · left
+      have h0 : i ≠ 0 := fun e => h (Or.inl e)
+      have h1 : i ≠ 1 := fun e => h (Or.inr e)
+      refine ⟨by simp [makeSafe, h], ?_, ?_, ?_⟩ <;> simp [h0, h1]
+  | none | flt _ _ | str _ _ | tuple _ _ | list _ _ | dict _ _ _ => left; simp [makeSafe]
+
+theorem mapIdxFrom_mem {α β} (f : Nat → α → β) (i : Nat) (xs : List α) (y : β) (h : y ∈ mapIdxFrom f i xs) :
+    ∃ k x, x ∈ xs ∧ y = f k x := by
+  induction xs generalizing i with
+  | nil => simp [mapIdxFrom] at h
+  | cons x xs ih =>
+    simp only [mapIdxFrom, List.mem_cons] at h
+    rcases h with rfl | h
+    · exact ⟨i, x, by simp, rfl⟩
+    · obtain ⟨k, x', hx, hy⟩ := ih (i + 1) h
+      exact ⟨k, x', by simp [hx], hy⟩
+
+/-- after `SafeLearner.predict`'s substitution no offered action is the int 0, the int 1 or a bool any more: every such
+action has been replaced by a float object of its own (`Ref.safe`) -/
+theorem safeRow_no01' (r : Nat) (as : List PyVal) :
+    ∀ a ∈ safeRow r as, a ≠ .int 0 ∧ a ≠ .int 1 ∧ ∀ b, a ≠ .bool b := by
+  intro a ha
+  unfold safeRow at ha
+  split at ha
+  · obtain ⟨k, x, _, rfl⟩ := mapIdxFrom_mem _ _ _ _ ha
+    rcases makeSafe_spec (r * 4096 + k) x with ⟨h1, h2⟩ | ⟨q, h1, _⟩
+    · rw [h1]; exact h2
+    · rw [h1]; simp
+  · rename_i hno
+    have hno' : as.any isZeroOne = false := by simpa using hno
+    have hz : isZeroOne a = false := by
+      have := List.any_eq_false.mp hno' a ha
+      simpa using this
+    refine ⟨?_, ?_, ?_⟩
+    · rintro rfl; simp [isZeroOne, PyVal.num] at hz
+    · rintro rfl; simp [isZeroOne, PyVal.num] at hz
+    · rintro b rfl; cases b <;> simp [isZeroOne, PyVal.num] at hz
+
+theorem mapIdxFrom_forall₂ {α β} (f : Nat → α → β) (P : β → α → Prop) (hf : ∀ k x, P (f k x) x) (i : Nat) (xs : List α) :
+    List.Forall₂ P (mapIdxFrom f i xs) xs := by
+  induction xs generalizing i with
+  | nil => exact List.Forall₂.nil
+  | cons x xs ih => exact List.Forall₂.cons (hf i x) (ih (i + 1))
+
+/-- the learner is given, position by position, the offered action itself or a float equal to it (Python `==`) -/
+theorem safeRow_values' (r : Nat) (as : List PyVal) :
+    List.Forall₂ (fun s a => s = a ∨ pyEq s a = true) (safeRow r as) as := by
+  unfold safeRow
+  split
+  · apply mapIdxFrom_forall₂
+    intro k x
+    rcases makeSafe_spec (r * 4096 + k) x with ⟨h1, _⟩ | ⟨q, _, _, h3⟩
+    · exact Or.inl h1
+    · exact Or.inr h3
+  · exact List.forall₂_same.mpr (fun a _ => Or.inl rfl)
+
+/-- the entries of a PMF a learner builds (fresh floats, or the ints 0/1) are none of the offered objects once the
+float copies are in place: the side condition of `firstRowOK` for two-action PMFs then holds by construction -/
+theorem pmf_entry_fresh' (x : PyVal) (as : List PyVal)
+    (hx : (∃ k q, x = .flt (.lrn k) q) ∨ x = .int 0 ∨ x = .int 1)
+    (hsafe : ∀ a ∈ as, a ≠ .int 0 ∧ a ≠ .int 1) (hl : ∀ a ∈ as, isLrn a = false) :
+    as.any (fun a => pyIs x a) = false := by
+  rw [List.any_eq_false]
+  intro a ha
+  obtain ⟨h0, h1⟩ := hsafe a ha
+  have hla := hl a ha
+  rcases hx with ⟨k, q, rfl⟩ | rfl | rfl
+  · cases a <;> simp [pyIs]
+    rename_i r _
+    cases r <;> simp_all [isLrn]
+  · cases a <;> simp [pyIs]
+    rename_i i; intro h; subst h; exact h0 rfl
+  · cases a <;> simp [pyIs]
+    rename_i i; intro h; subst h; exact h1 rfl
+
+
+
+
+/-! ### `learn`: what predict returned goes back to the learner -/
+
+/-- unbatched, or a learner that takes batches: one call, with exactly the kwargs predict returned -/
+theorem learn_kwargs_whole' (arg : Arg) (r : Result) (reward : PyVal) (ks : List String) (vs : List PyVal) (ref : Ref)
+    (hk : r.kw = .dict ref ks vs) :
+    (∀ c as, arg = .single c as → learn true arg r reward = .ok [⟨c, r.a, reward, r.p, ks, vs⟩] ∧
+                                   learn false arg r reward = .ok [⟨c, r.a, reward, r.p, ks, vs⟩]) ∧
+    (∀ cs rows, arg = .batch cs rows → learn true arg r reward = .ok [⟨.list .tmp cs, r.a, reward, r.p, ks, vs⟩]) := by
+  constructor
+  · intro c as h; subst h; simp [learn, hk, pure, Except.pure]
+  · intro cs rows h; subst h; simp [learn, hk, pure, Except.pure]
+
+/-- a learner that cannot take batches: row i is given the i-th entry of every kwargs column -/
+theorem learnRows_kwargs' (ks : List String) (cols : List (List PyVal)) (ref : Ref) :
+    ∀ (i : Nat) (cs A R P : List PyVal), (∀ c ∈ cols, i + cs.length ≤ c.length) → A.length = cs.length → R.length = cs.length →
+      P.length = cs.length →
+      ∃ calls, learnRows i cs A R P ks (cols.map (fun c => PyVal.list ref c)) = .ok calls ∧ calls.length = cs.length ∧
+        ∀ (j : Nat) (call : LearnCall), calls[j]? = some call →
+          call.kwKeys = ks ∧ call.kwVals = cols.map (fun c => c.getD (i + j) .none) ∧
+          cs[j]? = some call.ctx ∧ A[j]? = some call.action ∧ R[j]? = some call.reward ∧ P[j]? = some call.prob := by
+  intro i cs
+  induction cs generalizing i with
+  | nil =>
+    intro A R P _ hA hR hP
+    refine ⟨[], ?_, rfl, by intro j c h; simp at h⟩
+    cases A <;> cases R <;> cases P <;> simp_all [learnRows, pure, Except.pure]
+  | cons c cs ih =>
+    intro A R P hc hA hR hP
+    obtain ⟨a, A', rfl⟩ : ∃ a A', A = a :: A' := by cases A <;> simp_all
+    obtain ⟨r, R', rfl⟩ : ∃ a A', R = a :: A' := by cases R <;> simp_all
+    obtain ⟨p, P', rfl⟩ : ∃ a A', P = a :: A' := by cases P <;> simp_all
+    have hkv : mapE (fun v => getIdx v i) (cols.map (fun c => PyVal.list ref c)) = .ok (cols.map (fun c => c.getD i .none)) := by
+      apply mapE_map_ok
+      intro col hcol
+      have hi : i < col.length := by have := hc col hcol; simp at this; omega
+      simp [getIdx, List.getElem?_eq_getElem hi, List.getD_eq_getElem?_getD]
+    obtain ⟨calls, h1, h2, h3⟩ := ih (i + 1) A' R' P' (by intro col hcol; have := hc col hcol; simp at this ⊢; omega)
+      (by simpa using hA) (by simpa using hR) (by simpa using hP)
+    refine ⟨⟨c, a, r, p, ks, cols.map (fun c => c.getD i .none)⟩ :: calls, ?_, by simp [h2], ?_⟩
+    · simp [learnRows, hkv, h1, bind, Except.bind, pure, Except.pure]
+    · intro j call hj
+      cases j with
+      | zero => simp at hj; subst hj; simp
+      | succ j =>
+        simp at hj
+        obtain ⟨g1, g2, g3, g4, g5, g6⟩ := h3 j call hj
+        refine ⟨g1, ?_, by simpa using g3, by simpa using g4, by simpa using g5, by simpa using g6⟩
+        rw [g2]; congr 1; funext col; congr 1; omega
+
+/-! ### a learner that cannot handle batches is called once per row -/
+
+theorem perrow_calls' (fx : Fixes) (sp : Spec) (pol : Policy) (m : Option Nat) (cs : List PyVal) (rows : List (List PyVal))
+    (hlay : sp.layout = .single) (hm : m = Option.none ∨ m = some 2) :
+    (safeCallTrace fx (scripted sp pol) m (.batch cs rows)).filter (fun a => !isBatchArg a) = perRowArgs cs rows := by
+  have hL : scripted sp pol (.batch cs rows) = .error .learner := by simp [scripted, hlay]
+  have hmem : ∀ (cs : List PyVal) (rows : List (List PyVal)), ∀ a ∈ perRowArgs cs rows, isBatchArg a = false := by
+    intro cs
+    induction cs with
+    | nil => intro rows a ha; cases rows <;> simp [perRowArgs] at ha
+    | cons c cs ih => intro rows a ha; cases rows with
+      | nil => simp [perRowArgs] at ha
+      | cons r rows =>
+        simp only [perRowArgs, List.mem_cons] at ha
+        rcases ha with rfl | ha
+        · rfl
+        · exact ih rows a ha
+  have hper : (perRowArgs cs rows).filter (fun a => !isBatchArg a) = perRowArgs cs rows := by
+    rw [List.filter_eq_self]
+    intro a ha; simp [hmem cs rows a ha]
+  rcases hm with rfl | rfl
+  · have e : (safeCallTrace fx (scripted sp pol) Option.none (.batch cs rows)) = .batch cs rows :: perRowArgs cs rows := by
+      simp only [safeCallTrace, hL]
+    rw [e, List.filter_cons]
+    simp only [isBatchArg, Bool.not_true, Bool.false_eq_true, ↓reduceIte]
+    exact hper
+  · simp only [safeCallTrace, hper]
+
+
+
+
+/-! ### glue: `predict` = float copies, then the core; the memoised detection is an invariant -/
+
+theorem predict_prepare' (fx : Fixes) (L : Learner) (st : State) (arg : Arg) :
+    predict fx L st arg = predictCore fx L (prepare fx st arg).1 (prepare fx st arg).2 := rfl
+
+/-- `prepare` touches only `_prev_actions` / `_safe_actions` -/
+theorem prepare_frame' (fx : Fixes) (st : State) (arg : Arg) :
+    (prepare fx st arg).1.rng = st.rng ∧ (prepare fx st arg).1.method = st.method ∧ (prepare fx st arg).1.layout = st.layout ∧
+    (prepare fx st arg).1.hasKw = st.hasKw ∧ (prepare fx st arg).1.fmt = st.fmt := by
+  unfold prepare
+  simp only
+  split <;> (try split) <;> simp
+
+theorem inv_prepare' (fx : Fixes) (sp : Spec) (b : Bool) (st : State) (arg : Arg) (h : Inv sp b st) :
+    Inv sp b (prepare fx st arg).1 := by
+  obtain ⟨h1, h2, h3, h4, h5⟩ := prepare_frame' fx st arg
+  rcases h with ⟨hm, hl⟩ | hst
+  · exact Or.inl ⟨by rw [h2, hm], by rw [h3, hl]⟩
+  · right
+    obtain ⟨g1, g2, g3, g4⟩ := inv_after hst
+    generalize (prepare fx st arg).1 = st1 at *
+    cases st1
+    simp only at h1 h2 h3 h4 h5
+    subst h1 h2 h3 h4 h5
+    simp [stAfter, g1, g2, g3, g4]
+
+theorem inv_stAfter' (sp : Spec) (b : Bool) (st : State) (s : Nat) : Inv sp b (stAfter sp b st s) := by
+  right; simp [stAfter]
+
+/-- what the learner is given in place of the offered actions: on a fresh or changed action set the float copies of the
+repaired `predict` (every row of a batch) -/
+theorem prepare_given' (st : State) (arg : Arg) (h : st.prev = Option.none) :
+    (prepare Fixes.all st arg).2 =
+      (match arg with
+       | .single c as => .single c (safeRow 0 as)
+       | .batch cs rows => .batch cs (mapIdxFrom safeRow 0 rows)) := by
+  cases arg <;> simp [prepare, h, argActs, safeActs, withActs, Fixes.all]
+
+theorem wantBatch_layout' (sp : Spec) (l : Layout) (s : Nat) (R : Rows) :
+    wantBatch { sp with layout := l } s R = wantBatch sp s R := rfl
 
 
 end Coba.C15
